@@ -24,6 +24,8 @@ fn batches(variant: usize) -> Vec<Batch> {
         0 => vec![vec![(0, vec![a.clone()]), (1, vec![a.clone(), b.clone()])], vec![(0, vec![p1().feat(&fa1(), 0.8)]), (1, vec![b.shift(2.0, 1.0), p1()])]],
         // a scene absent from the second batch, three batches
         1 => vec![vec![(0, vec![a.clone()]), (1, vec![b.clone()])], vec![(1, vec![b.shift(1.0, 0.0)])], vec![(0, vec![p1()]), (1, vec![b.shift(2.0, 0.0)])]],
+        // one batch, two scenes that each start a track (fine tier)
+        3 => vec![vec![(0, vec![a.clone()]), (1, vec![b.clone()])], vec![(0, vec![p1().feat(&fa1(), 0.8)]), (1, vec![b.shift(1.0, 0.0)])]],
         // three scenes
         _ => vec![vec![(0, vec![a.clone()]), (1, vec![a.clone()]), (2, vec![b.clone()])], vec![(0, vec![p1()]), (2, vec![b.shift(1.0, 1.0)]), (1, vec![p1().shift(0.5, 0.0)])]],
     }
@@ -190,7 +192,7 @@ fn judge(o: &Obs, bs: &[Batch], reference: &BTreeMap<u64, Vec<Vec<Rec>>>) -> Res
 
 pub fn run_check(tier: Tier) -> Report {
     let rep = Report::new("C06", tier);
-    rep.set_rule("BatchSort and BatchVisualSort x (distance shards, voting shards) in {(1,1),(1,2),(2,2)} (thorough: (1,3)) x batch sequences (2-3 batches over 2-3 scenes with 1-2 detections per scene, a scene absent from one batch) x consumer discipline {same thread retrieves before the next submission; a second thread retrieves while the caller submits at once}, then drop: every interleaving of the predict loop, store workers, voting threads and consumer within the bound (window = whole run; bound = preemptions for the 1x1 / retrieve-then-submit configuration, otherwise departures from the deterministic default schedule i.e. delay bounding; bounds iterated 0,1,2,.. and the largest completed one reported per scenario); oracle: one result per submitted scene, one record per detection in order, per scene equal to the simple tracker up to an id bijection, no deadlock / step-cap. A third discipline that violates the proviso (submit a two-scene batch, then the next, before retrieving) must deadlock: built-in detection demo. states = executions.");
+    rep.set_rule("BatchSort and BatchVisualSort x (distance shards, voting shards) in {(1,1),(1,2),(2,2)} (thorough: (1,3)) x batch sequences (2-3 batches over 2-3 scenes with 1-2 detections per scene, a scene absent from one batch) x consumer discipline {same thread retrieves before the next submission; a second thread retrieves while the caller submits at once}, then drop; plus a fine tier (every synchronisation operation a decision point, two batches of two scenes, 2 voting threads, deviation bound iterated to 2 quick / 4 thorough): every interleaving of the predict loop, store workers, voting threads and consumer within the bound (window = whole run; bound = preemptions for the 1x1 / retrieve-then-submit configuration, otherwise departures from the deterministic default schedule i.e. delay bounding; bounds iterated 0,1,2,.. and the largest completed one reported per scenario); oracle: one result per submitted scene, one record per detection in order, per scene equal to the simple tracker up to an id bijection, no deadlock / step-cap. A third discipline that violates the proviso (submit a two-scene batch, then the next, before retrieving) must deadlock: built-in detection demo. states = executions.");
     rep.assume("macro-step granularity (named points: worker dequeues a command, distances queued, scene dispatched, vote begin / before each store write / before the result is sent); preemptions inside lock-protected sections are not explored");
     let mut scen = BTreeMap::new();
     let mut total = 0u64;
@@ -210,6 +212,49 @@ pub fn run_check(tier: Tier) -> Report {
             }
         }
     }
+    // fine tier: every synchronisation operation is a decision point (the macro-step tiers below
+    // cannot see a check-then-act race between two lock sections that has no named point in it);
+    // smallest harness: two batches of two scenes, two voting threads, deviation bound iterated
+    for kind in [Kind::BatchVisualSort, Kind::BatchSort] {
+        let mut cfg = TrkCfg::new(kind);
+        cfg.shards = 1;
+        cfg.voting_shards = 2;
+        cfg.max_idle = 2;
+        let bs = batches(3);
+        let reference = simple_reference(&cfg, &bs);
+        let slice = if tier == Tier::Quick { 6.0 } else { rep.budget() * 0.15 };
+        let slice_end = std::time::Instant::now() + std::time::Duration::from_secs_f64(slice);
+        let scj = json!({"config":cfg.json(),"batches_variant":3,"discipline":"retrieve-then-submit","granularity":"fine"});
+        let mut per_bound = vec![];
+        let mut completed: Option<usize> = None;
+        for bound in 0..=tier.pick(2usize, 4usize) {
+            if std::time::Instant::now() >= slice_end {
+                break;
+            }
+            let ecfg = sched::ExploreCfg { mode: sched::Mode::Fine, window: (1, 2), bound, max_steps: 200_000, deadline: Some(slice_end), count_all_deviations: true, ..Default::default() };
+            let (c2, b2) = (cfg.clone(), bs.clone());
+            let stats = sched::explore(&ecfg, move || run(&c2, &b2, 0), |x| match &x.outcome {
+                sched::Outcome::Done(o) => {
+                    if let Err((key, what)) = judge(o, &bs, &reference) {
+                        rep.violation(Violation { key, what, replay: json!({"scenario":scj,"schedule":x.schedule_json()}) });
+                    }
+                }
+                sched::Outcome::Machinery(m) => machinery_error(m),
+                sched::Outcome::Deadlock(m) => rep.violation(Violation { key: "batch/deadlock".into(), what: m.chars().take(300).collect(), replay: json!({"scenario":scj,"schedule":x.schedule_json()}) }),
+                sched::Outcome::StepCap(m) => rep.violation(Violation { key: "batch/step-cap".into(), what: m.chars().take(300).collect(), replay: json!({"scenario":scj,"schedule":x.schedule_json()}) }),
+                sched::Outcome::Panic(m) => rep.violation(Violation { key: "batch/panic".into(), what: m.chars().take(300).collect(), replay: json!({"scenario":scj,"schedule":x.schedule_json()}) }),
+            });
+            total += stats.executions;
+            rep.add(stats.executions, stats.decision_points, stats.executions, 0);
+            per_bound.push(json!({"bound":bound,"schedules":stats.executions,"max_decision_points":stats.max_points,"complete":!stats.truncated}));
+            if stats.truncated {
+                rep.cap_hit(&format!("fine tier {}: deviation bound {bound} not completed within {slice:.0}s", kind.name()));
+                break;
+            }
+            completed = Some(bound);
+        }
+        scen.insert(format!("fine/{}/d1v2/batches3", kind.name()), json!({"bound_kind":"deviations from the default schedule, every synchronisation operation a decision point","bounds":per_bound,"largest_bound_completed":completed}));
+    }
     let n_scen = scenarios.len();
     let mut min_completed = usize::MAX;
     for (si, (kind, ds, vs, variant, discipline, pos)) in scenarios.into_iter().enumerate() {
@@ -221,7 +266,7 @@ pub fn run_check(tier: Tier) -> Report {
         let bs = batches(variant);
         let reference = simple_reference(&cfg, &bs);
         // equal share of what is left of the wall budget; bounds are iterated 0, 1, 2, ... inside it
-        let budget = if tier == Tier::Quick { rep.budget().min(25.0) } else { rep.budget() };
+        let budget = if tier == Tier::Quick { rep.budget().min(36.0) } else { rep.budget() };
         let slice = ((budget - rep.elapsed()) / (n_scen - si) as f64).max(0.5);
         let slice_end = std::time::Instant::now() + std::time::Duration::from_secs_f64(slice);
         // preemption bounding (free switches when the running task blocks) is only tractable for the
@@ -310,7 +355,8 @@ pub fn replay(file: &serde_json::Value) -> i32 {
     let choices: Vec<usize> = r["schedule"]["choices"].as_array().map(|a| a.iter().map(|x| x.as_u64().unwrap_or(0) as usize).collect()).unwrap_or_default();
     let bs = batches(variant);
     let reference = simple_reference(&cfg, &bs);
-    let ecfg = sched::ExploreCfg { window: (1, 2), max_steps: 100_000, ..Default::default() };
+    let fine = sc["granularity"].is_string();
+    let ecfg = sched::ExploreCfg { mode: if fine { sched::Mode::Fine } else { sched::Mode::Macro }, window: (1, 2), max_steps: 200_000, ..Default::default() };
     let (c2, b2) = (cfg.clone(), bs.clone());
     let f = Arc::new(move || run(&c2, &b2, discipline));
     let x = sched::run_one(&ecfg, &choices, &f);
